@@ -39,9 +39,14 @@ const THEMES: [&[&str]; 8] = [
     &["red", "green", "blue", "MAX", "cyan", "pink", "gold", "grey", "teal", "plum", "rust", "sand"],
 ];
 pub const N_SETS: usize = THEMES.len();
-const GETTER: &str = "read_the_constant";
 
-fn raw(name: &str) -> u32 {
+
+/// the getter of the constant: a spelling of the last symbol shard
+pub fn getter() -> String {
+    crate::mutc::late_name("zread")
+}
+
+pub fn raw(name: &str) -> u32 {
     NonZeroU32::from(GlobalSymbol::from(name)).get()
 }
 
@@ -55,7 +60,8 @@ pub fn name_sets() -> &'static Vec<Result<Vec<&'static str>, String>> {
                 let mut picked: Vec<(u32, &'static str)> = vec![];
                 for c in cands.iter() {
                     let r = raw(c);
-                    if picked.iter().all(|(p, _)| p >> 28 != r >> 28) {
+                    // the last shard is reserved for getters (they sort after every item)
+                    if r >> 28 != 15 && picked.iter().all(|(p, _)| p >> 28 != r >> 28) {
                         picked.push((r, *c));
                     }
                     if picked.len() == 5 {
@@ -203,7 +209,7 @@ impl CCase {
         for t in 1..=self.hops() {
             v.push((self.role_name(self.h_role(t)).to_string(), None, self.val_h(t)));
         }
-        v.push((GETTER.to_string(), None, self.val_k()));
+        v.push((getter(), None, self.val_k()));
         v
     }
 
@@ -245,7 +251,7 @@ impl CCase {
         }
         if !self.expect_reject() {
             // only accepted programs carry the getter (one more item in the graph)
-            out.push_str(&format!("fn {GETTER}() -> i32 {{ {} }}\n", self.role_name(kr)));
+            out.push_str(&format!("fn {}() -> i32 {{ {} }}\n", getter(), self.role_name(kr)));
         }
         out
     }
